@@ -219,7 +219,7 @@ def run(chk):
             try:
                 res = exponentiated.gamma_variation(arr, (n, 0), nf, L)
             except Exception as e:  # escaping exception = violation of "returns the adjusted array"
-                chk.fail(f"C21.exponentiated.{kind}[order={n}].no_exception", f"{type(e).__name__}: {e}", fn=fn, replay=rp)
+                chk.raised(f"C21.exponentiated.{kind}[order={n}].no_exception", e, fn=fn, replay=rp)
                 continue
             if res is None:
                 chk.fail(f"C21.exponentiated.{kind}[order={n}].returns_array", "returned None", fn=fn, replay=rp)
@@ -246,7 +246,7 @@ def run(chk):
             try:
                 res = exponentiated.gamma_variation(Garr, (n, 0), nf, L)
             except Exception as e:
-                chk.fail(f"C21.exponentiated.array[order={n},d={d}].no_exception", f"{type(e).__name__}: {e}", fn=fn, replay=rp)
+                chk.raised(f"C21.exponentiated.array[order={n},d={d}].no_exception", e, fn=fn, replay=rp)
                 continue
             for j in range(n):
                 cj = specF.coeff(j + 1)      # L-series with Free coefficients sum_k c_jk(L) G_k
@@ -353,7 +353,7 @@ def run(chk):
                         chk.error(f"{tag}.exponentiated.no_exception", f"unsupported construct: {e}")
                         continue
                     except Exception as e:
-                        chk.fail(f"{tag}.exponentiated.no_exception", f"{type(e).__name__}: {e}", fn=fn, replay=rp)
+                        chk.raised(f"{tag}.exponentiated.no_exception", e, fn=fn, replay=rp)
                         continue
                     if res is None:
                         chk.fail(f"{tag}.exponentiated.returns_array", "gamma_variation_qed returned None (the adjusted anomalous dimensions are not returned)", fn=fn, replay=rp,
